@@ -162,6 +162,17 @@ def families(tier="quick"):
     fam["cfg"] = [{"name": "cfg_%x_%x_%x" % c,
                    "text": "main:\n    %s\nL1:\n    %s\nL2:\n    %s\nL3:\n" % (CF[c[0]], CF[c[1]], CF[c[2]]) + EXIT + "f:\n    beqz a0, early\n    li a0, 1\n    ret\nearly:\n    ret\n"}
                   for c in itertools.product(range(len(CF)), repeat=3)]
+    # every branch mnemonic (incl. the pseudo forms) x every operand coincidence (two registers, x0 on either side, the
+    # same register twice, x0 twice), forwards over one instruction and backwards: "always taken" / "never taken"
+    # special cases in the graph builder must agree with the comparison for all register contents
+    CONDS = ["beq", "bne", "blt", "bge", "bltu", "bgeu", "bgt", "ble", "bgtu", "bleu"]
+    OPS = [("t0", "t1"), ("zero", "t1"), ("t0", "zero"), ("t0", "t0"), ("zero", "zero")]
+    PSEUDO = ["beqz t0", "bnez t0", "bltz t0", "bgez t0", "bgtz t0", "blez t0", "beqz zero", "bnez zero"]
+    brs = ["%s %s, %s" % (c, a, b) for c in CONDS for a, b in OPS] + PSEUDO
+    fam["br0"] = [{"name": "br0_f_%d" % i, "text": "main:\n    li t2, 0\n    %s, over\n    li t2, 1\nover:\n    mv a0, t2\n" % b + EXIT}
+                  for i, b in enumerate(brs)] + \
+                 [{"name": "br0_b_%d" % i, "text": "main:\n    li t2, 0\nback:\n    addi t2, t2, 1\n    %s, back\n    mv a0, t2\n" % b + EXIT}
+                  for i, b in enumerate(brs)]
     # interrupt handlers: every 3-instruction body between the two uscratch swaps; a store is only
     # generated while a0 holds the save-area pointer (a store through the interrupted program's a0
     # could alias the save area: the analysis assumes tracked memory is reached only through its base)
